@@ -427,6 +427,38 @@ pub fn c02(opts: &Opts, out: &mut Out) {
                 );
             }
         }
+        // proofs whose number of L/R pairs is not log2(bits * aggregation) — one more, one fewer, and 64, 128 more (a
+        // round count that only looks right after the shift amount has wrapped): refused, and refused *before* the
+        // equation is evaluated (a verifier that folds over surplus rounds no longer enforces the inner-product relation
+        // for them; an equation-valid forgery exists for such shapes although random pairs do not find it)
+        if idx % 3 == 0 {
+            let bytes = proof.to_bytes();
+            let kappa = parts.l.len();
+            for extra in [1usize, 64, 128] {
+                let mut b = bytes.clone();
+                for j in 0..2 * extra {
+                    {
+                        use tari_bulletproofs_plus::traits::Compressable;
+                        b.extend_from_slice(&fm::FP::named(&format!("surplus{}", j)).compress().0);
+                    }
+                }
+                let Ok(long) = fmrun::Proof::from_bytes(&b) else { continue };
+                for action in fmrun::ACTIONS {
+                    fm::tap_start();
+                    let r = std::panic::catch_unwind(std::panic::AssertUnwindSafe(|| fmrun::Proof::verify_batch(&mut [inst.transcript()], std::slice::from_ref(&stmt), std::slice::from_ref(&long), action)));
+                    let evaluated = fm::tap_take().len();
+                    let k2 = format!("{} rounds {}+{} action={:?}", key, kappa, extra, action);
+                    match r {
+                        Err(_) => out.oracle("C02:surplus-rounds-refused", false, &k2, "verify_batch panicked"),
+                        Ok(r) => {
+                            out.oracle("C02:surplus-rounds-refused", r.is_err(), &k2, "a proof with surplus folding rounds was accepted");
+                            out.oracle("C02:surplus-rounds-refused-before-the-equation", evaluated == 0, &k2, &format!("the verifier evaluated {} multiscalar product(s) for a proof whose round count does not match the statement", evaluated));
+                        },
+                    }
+                }
+            }
+            classes.insert((inst.n, inst.m, inst.t, "surplus-rounds".to_string()));
+        }
         if idx < 2 {
             out.case(format!("mutations of {}", key));
         }
